@@ -174,6 +174,16 @@ Definition prune (s : state) : state :=
   let z := filter (fun d => mem_nat (did d) r) (zombies s) in
   mkState (listed s) z (keys s) (filter (held_by (listed s ++ z)) (indexed s)) (next_id s).
 
+(* what reference counting alone frees in the middle of an operation (before the next collection): an item no
+   object holds any more; a removed directory object that no held item points at (then the items only it held).
+   A removed directory that still holds items of its own keeps itself alive (reference cycle) until [prune]. *)
+Definition pointed (objs : list dobj) (z : dobj) : bool :=
+  existsb (fun d => existsb (fun x => Nat.eqb (oid x) (did z)) (ditems d)) objs.
+Definition rc_step (ls zs : list dobj) : list dobj := filter (pointed (ls ++ zs)) zs.
+Definition rc_prune (s : state) : state :=
+  let z := iter (S (length (zombies s))) (rc_step (listed s)) (zombies s) in
+  mkState (listed s) z (keys s) (filter (held_by (listed s ++ z)) (indexed s)) (next_id s).
+
 (* ---------------------------------------------------------------- term map *)
 
 Definition add_keys (ws : list str) (ks : list str) : list str :=
@@ -262,7 +272,7 @@ Definition scan_raw (s : state) (p : path) (disk : list file) : state :=
   | None => s
   | Some d =>
       let its := reconcile (ditems d) (scan_set d (children_of d (listed s)) disk) in
-      let s1 := prune (mkState (replace_dir (set_items d its) (listed s)) (zombies s) (keys s) (indexed s) (next_id s)) in
+      let s1 := rc_prune (mkState (replace_dir (set_items d its) (listed s)) (zombies s) (keys s) (indexed s) (next_id s)) in
       cleanup (build_term_map s1 its)
   end.
 
